@@ -30,7 +30,7 @@ theorem mem_resolveCanon {c1 c2 : Clause} {n : Nat} {l : Lit} :
 theorem mem_of_isArrangement {o c : Clause} (h : isArrangement o c = true) (l : Lit) :
     l ∈ o ↔ l ∈ c := by
   simp only [isArrangement, Bool.and_eq_true, List.all_eq_true, List.contains_iff_mem] at h
-  exact ⟨h.2 l, h.1.2 l⟩
+  exact ⟨h.1.2 l, h.1.1.2 l⟩
 
 theorem mem_resolveWith {c1 c2 : Clause} {n : Nat} {o : Option Clause} {l : Lit} :
     l ∈ resolveWith c1 c2 n o ↔ (l ∈ c1 ∨ l ∈ c2) ∧ l.1 ≠ n := by
